@@ -1350,6 +1350,8 @@ def np_array(eng, x, dtype=None):
 
 @B('np.zeros')
 def np_zeros(eng, n, dtype=None):
+    if isinstance(n, tuple) and len(n) == 2 and all(isinstance(k, int) for k in n):
+        return NVec([NVec([Fraction(0)] * n[1]) for _ in range(n[0])])
     if not isinstance(n, int): raise Unsupported('np.zeros of symbolic size')
     return NVec([Fraction(0)] * n)
 
